@@ -226,12 +226,16 @@ class SignatureInfo:
         param = self.parameters[argument]
     else:
       assert isinstance(argument, int)
-      if (
-          self.var_positional_start is not None
-          and argument < self.var_positional_start
+      params = list(self.parameters.values())
+      if 0 <= argument < len(params) and (
+          self.var_positional_start is None
+          or argument < self.var_positional_start
       ):
-        params = list(self.parameters.values())
-        param = params[argument]
+        if params[argument].kind in (
+            params[argument].POSITIONAL_ONLY,
+            params[argument].POSITIONAL_OR_KEYWORD,
+        ):
+          param = params[argument]
     if param and param.default is not param.empty:
       value = param.default
     return value
